@@ -40,7 +40,7 @@ def gen_cases(rng, tier):
         case = {"site": kind, "kind": kind, "s1": s1, "s2": s2, "self": self_cmp,
                 "gamma": rng.choice([1, 0.5, 2]), "tau": tau, "delta": rng.choice([0, -0.5, -2 * tau]),
                 "delta_factor": rng.choice([1, 0.9, 0.5]), "penalty": rng.choice([None, 0, 0.05, 0.5]),
-                "window": rng.choice([None, None, 1, 2, 3]), "only_triu": bool(self_cmp and rng.random() < 0.6)}
+                "window": rng.choice([None, None, 1, 2, 3]), "only_triu": bool((self_cmp and rng.random() < 0.6) or rng.random() < 0.15)}
         if kind in ("lc", "lc.c"):
             case["ops"] = [[rng.choice([1, 2, 3, None]), rng.choice([1, 2]), rng.random() < 0.6] for _ in range(rng.randint(1, 3))]
             if case["penalty"] is None:
